@@ -114,9 +114,13 @@ def check(ctx):
     res = resolve_call(repo, tx[0][1], so) if tx else []
     ctx.check(ok and bool(res), "T9-serverTx", so, "TcpServerStack: pkt, ca = txPkts.popleft(); handler.transmitIx(pkt.packed, ca) (callee resolved: %s)" % bool(res),
               "each queued packet's bytes must be handed to the connection of its own peer")
-    for cn in ("ClientStreamStack",):
+    for cn in ("ClientStreamStack", "TcpClientStack"):
         C = ctx.cls("stacking", cn)
-        f = C.own_method("_serviceOneTxPkt")
+        f = C.methods.get("_serviceOneTxPkt")
+        if f is None:
+            if cn == "ClientStreamStack":
+                raise AnchorError("ClientStreamStack._serviceOneTxPkt not found")
+            continue        # inherits the stream stack's discipline
         W = FuncView(ctx, f, exc="raise")
         t = W.tests(lambda t: src(t) == "not self.txbs")
         pl = W.call_nodes("self.txPkts.popleft")
@@ -147,3 +151,20 @@ def check(ctx):
             ok = W.dominated_by_edge(dl + ap, nt[0], lab) and W.dominated(ap, dl)
         ctx.check(ok, "T9-rx", f, "%s.%s: del %s[:packet.size] and rxPkts.append only for a parsed packet" % (cn, meth, buf),
                   "every received byte must end up in exactly one received packet")
+    # bytes read from a connection are parsed before that connection can be reaped: in serviceAll no serviceConnects()
+    # (which closes cut-off connections and discards their Incomer with its rxbs) between the receive pass and the parse pass
+    ctx.rule("T3-rxorder", "TcpServerStack.serviceAll: serviceReceivesAllIx() is followed by serviceAllRx() before any serviceConnects()")
+    sa_ = TS.method("serviceAll")
+    if sa_ is None:
+        raise AnchorError("TcpServerStack.serviceAll not found")
+    A = FuncView(ctx, sa_)
+    rcv = A.need(A.call_nodes(("self.handler.serviceReceivesAllIx", "self.serviceReceives")), "receive pass in TcpServerStack.serviceAll")
+    prs = A.need(A.call_nodes(("self.serviceAllRx", "self.serviceRxPkts")), "parse pass in TcpServerStack.serviceAll")
+    con = A.call_nodes("self.serviceConnects")
+    bad = False
+    for r in rcv:
+        reach = A.cfg.reachable([b for b, _ in A.cfg.succ[r.id]], removed_nodes=[p.id for p in prs])
+        bad = bad or any(c.id in reach for c in con)
+    ctx.check(not bad, "T3-rxorder", sa_, "serviceAll: receive pass -> parse pass with no serviceConnects() in between",
+              "when a peer sends its last packets and closes, data and end-of-stream are read in the same pass; reaping the "
+              "connection before the parse pass throws the received bytes away")
